@@ -300,6 +300,22 @@ pub fn c03_scenarios(tier: Tier) -> Vec<Scenario> {
     let mut sc = ConcScenario::new(c, vec![vec![get(), Op::Release], vec![get(), Op::Release]], base);
     sc.prefill = 2;
     v.push(conc_paid("abandon-with-two-hooks/ms2", "two hooks per kind (async, sync), two idle objects: abandonment after one or more rejected objects", if b.thorough { 3 } else { 1 }, if b.thorough { 2 } else { 1 }, sc));
+    // abandonment by an enclosing deadline (tokio::time::timeout around get())
+    {
+        use crate::tworld::{run_enclosing, EnclosingScenario, PState};
+        for state in [PState::Empty, PState::Idle, PState::Exhausted] {
+            for hooks in [false, true] {
+                let sc = EnclosingScenario { state, hooks, max_events: if b.thorough { 8 } else { 6 } };
+                v.push(Scenario::new(
+                    &format!("enclosing-deadline/{:?}/{}", state, if hooks { "hooks" } else { "plain" }),
+                    "tokio::time::timeout(10ms, pool.get()) on a paused clock: every manager / hook call suspends, the explorer orders clock advances, completions and the holder's return; the outer deadline drops the call at whichever await point it is in",
+                    0,
+                    if b.thorough { 4 } else { 3 },
+                    move || run_enclosing(&sc),
+                ));
+            }
+        }
+    }
     // sequential differential: every reachable state x every suspension point
     for (layout, ms, prefill) in [(2u8, 1usize, 1usize), (3, 2, 2), (0, 2, 1)] {
         let mut c = PoolCfg::simple(ms);
